@@ -66,4 +66,9 @@ theorem level_lengths_B (v0 v1 v2 v3 : V3 ℝ) (f0 f1 f2 f3 lev : ℝ) :
       = [Gen.LevelLength.lenB v0 v1 v2 v3 f0 f1 f2 f3 lev, Gen.LevelLength.lenB v0 v1 v2 v3 f0 f1 f2 f3 lev] := by
   simp only [Gen.LevelLength.lensB, Gen.LevelLength.lensB_0, Gen.LevelLength.lensB_1, Gen.LevelLength.lenB]
 
+
+/-! ### census of data-dependent decisions: the traced code took exactly the branches the model knows about -/
+theorem census_LevelLength_pcACount : Gen.LevelLength.pcACount = 4 := rfl
+theorem census_LevelLength_pcBCount : Gen.LevelLength.pcBCount = 4 := rfl
+
 end LapyVerif.Bridge
